@@ -71,6 +71,7 @@ type c06Sentinel struct{ n int64 }
 type c06Plan struct {
 	id        string
 	kind      string
+	node      int      // index of the miniredis the keys live on
 	keys      []string // sorted
 	fgFail    bool
 	failFirst int // number of background attempts that fail (>=5: all)
@@ -140,7 +141,10 @@ func c06GetRig() (*c06Rig, error) {
 				c06RigErr = err
 				return
 			}
-			mr.Server().SetPreHook(r.hook)
+			node := i
+			mr.Server().SetPreHook(func(c *server.Peer, cmd string, args ...string) bool {
+				return r.hook(node, c, cmd, args)
+			})
 			r.mrs = append(r.mrs, mr)
 		}
 		c06TheRig = r
@@ -150,12 +154,12 @@ func c06GetRig() (*c06Rig, error) {
 
 // hook runs inside miniredis before every command: records DELs of planned keys and
 // injects the planned failures.
-func (r *c06Rig) hook(c *server.Peer, cmd string, args ...string) bool {
+func (r *c06Rig) hook(node int, c *server.Peer, cmd string, args []string) bool {
 	if cmd != "DEL" || len(args) == 0 {
 		return false
 	}
 	r.mu.Lock()
-	p := r.byKey[args[0]]
+	p := r.byKey[fmt.Sprintf("%d|%s", node, args[0])]
 	if p == nil {
 		r.mu.Unlock()
 		return false
@@ -194,7 +198,7 @@ func (r *c06Rig) takeEvents() []c06Event {
 func (r *c06Rig) register(p *c06Plan) {
 	r.mu.Lock()
 	for _, k := range p.keys {
-		r.byKey[k] = p
+		r.byKey[fmt.Sprintf("%d|%s", p.node, k)] = p
 	}
 	r.mu.Unlock()
 }
@@ -202,17 +206,20 @@ func (r *c06Rig) register(p *c06Plan) {
 func (r *c06Rig) unregister(p *c06Plan) {
 	r.mu.Lock()
 	for _, k := range p.keys {
-		delete(r.byKey, k)
+		delete(r.byKey, fmt.Sprintf("%d|%s", p.node, k))
 	}
 	r.mu.Unlock()
 }
 
 // step advances logical time by one second and returns once everything caused by that
-// tick has finished. ok=false: a watchdog fired (inconclusive).
-func (r *c06Rig) step() (ok bool, why string) {
+// tick has finished. ok=false: a watchdog fired (inconclusive). skipped=true: the wheel has
+// finished the tick (run loop idle again, no runTasks goroutine left) WITHOUT executing the
+// sentinel timer that was due on it — a decided fact, not a timeout: the wheel left due
+// timers of this tick unexecuted.
+func (r *c06Rig) step() (ok bool, why string, skipped bool) {
 	n := atomic.LoadInt64(&r.tick) + 1
 	if err := r.tw.SetTimer(fmt.Sprintf("c06-sentinel-%d", n), c06Sentinel{n: n}, time.Second); err != nil {
-		return false, "sentinel SetTimer: " + err.Error()
+		return false, "sentinel SetTimer: " + err.Error(), false
 	}
 	before := atomic.LoadInt64(&r.cleanCall)
 	atomic.StoreInt64(&r.tick, n)
@@ -222,20 +229,59 @@ func (r *c06Rig) step() (ok bool, why string) {
 	select {
 	case r.tk.c <- time.Time{}:
 	case <-wd.C:
-		return false, "wheel run loop did not take the tick"
+		return false, "wheel run loop did not take the tick", false
 	}
-	select {
-	case got := <-r.sentinel:
-		if got != n {
-			return false, fmt.Sprintf("sentinel %d seen while waiting for %d", got, n)
+	pollEvery := 2 * time.Millisecond
+	poll := time.NewTimer(pollEvery) // only triggers the diagnosis below, decides nothing
+	defer poll.Stop()
+wait:
+	for {
+		select {
+		case got := <-r.sentinel:
+			if got < n {
+				continue // a sentinel the wheel had skipped earlier, executed a revolution late
+			}
+			if got != n {
+				return false, fmt.Sprintf("sentinel %d seen while waiting for %d", got, n), false
+			}
+			break wait
+		case <-poll.C:
+			// barrier: accepted only once the run loop is back in its select, i.e. onTick is over
+			// and the goroutine executing this tick's tasks (if any) has been created
+			if err := r.tw.RemoveTimer("c06-barrier"); err != nil {
+				return false, "barrier: " + err.Error(), false
+			}
+			if !strings.Contains(vk.Stacks(), "(*TimingWheel).runTasks") {
+				// no task-executing goroutine exists any more: whatever it sent is in the channel
+				for {
+					select {
+					case got := <-r.sentinel:
+						if got < n {
+							continue
+						}
+						if got != n {
+							return false, fmt.Sprintf("sentinel %d seen while waiting for %d", got, n), false
+						}
+						break wait
+					default:
+						skipped = true
+						break wait
+					}
+				}
+			}
+			if pollEvery < 100*time.Millisecond {
+				pollEvery *= 2
+			}
+			poll.Reset(pollEvery)
+		case <-wd.C:
+			return false, "sentinel of the tick was not executed", false
 		}
-	case <-wd.C:
-		return false, "sentinel of the tick was not executed"
 	}
 	if atomic.LoadInt64(&r.cleanCall) != before {
-		return r.drainRunner(wd)
+		ok, why = r.drainRunner(wd)
+		return ok, why, skipped
 	}
-	return true, ""
+	return true, "", skipped
 }
 
 // drainRunner holds all slots of the cleaner's TaskRunner at once: possible only when no
@@ -450,7 +496,7 @@ func (x *c06Run) issue(op c06Op) (ok bool) {
 			us = append(us, mk(op.Kind, keys, 0))
 		}
 		for _, u := range us {
-			u.mr = mr
+			u.mr, u.plan.node = mr, int(id)%len(r.mrs)
 			r.register(u.plan)
 			for _, k := range u.plan.keys {
 				if !op.Absent {
@@ -460,6 +506,53 @@ func (x *c06Run) issue(op c06Op) (ok bool) {
 		}
 		if err := n.DelCtx(ctx, keys...); err != nil {
 			x.stats["del_returned_error"]++ // not claimed either way by the statement: counted only
+		}
+		afterCall()
+	case "twonodes":
+		// two cache nodes (two redis servers) fail to delete the SAME key names
+		keys := c06Keys(prefix, op.NKeys)
+		var nodes []Cache
+		for g := 0; g < 2; g++ {
+			ni := (int(id) + g) % len(r.mrs)
+			mr := r.mrs[ni]
+			u := mk("twonodes", keys, g)
+			u.plan.node, u.mr = ni, mr
+			r.register(u.plan)
+			if !op.Absent {
+				for _, k := range keys {
+					mr.Set(k, "stale")
+				}
+			}
+			nodes = append(nodes, NewNode(redis.New(mr.Addr()), syncx.NewSingleFlight(), r.st, errors.New("c06 not found")))
+		}
+		for _, n := range nodes {
+			if err := n.DelCtx(ctx, keys...); err != nil {
+				x.stats["del_returned_error"]++
+			}
+		}
+		afterCall()
+	case "joined":
+		// one node: Del(k0,k1) and then Del of the single key named "k0,k1" — two different
+		// deletes whose key lists look alike when joined with ","
+		ni := int(id) % len(r.mrs)
+		mr := r.mrs[ni]
+		n := NewNode(redis.New(mr.Addr()), syncx.NewSingleFlight(), r.st, errors.New("c06 not found"))
+		pair := c06Keys(prefix, 2)
+		single := []string{pair[0] + "," + pair[1]}
+		for g, ks := range [][]string{pair, single} {
+			u := mk("joined", ks, g)
+			u.plan.node, u.mr = ni, mr
+			r.register(u.plan)
+			if !op.Absent {
+				for _, k := range ks {
+					mr.Set(k, "stale")
+				}
+			}
+		}
+		for _, ks := range [][]string{pair, single} {
+			if err := n.DelCtx(ctx, ks...); err != nil {
+				x.stats["del_returned_error"]++
+			}
 		}
 		afterCall()
 	case "cluster":
@@ -493,7 +586,7 @@ func (x *c06Run) issue(op c06Op) (ok bool) {
 			sort.Strings(ks)
 			u := mk("cluster", ks, g)
 			g++
-			u.mr = mr
+			u.mr, u.plan.node = mr, i
 			r.register(u.plan)
 			for _, k := range ks {
 				if !op.Absent {
@@ -684,7 +777,7 @@ func c06RunScenario(m *vk.M, rig *c06Rig, idx int, sc c06Scenario) (ok bool, sta
 				return true, x.stats
 			}
 		}
-		okStep, why := rig.step()
+		okStep, why, skipped := rig.step()
 		if !okStep {
 			m.Inconclusive("%s: tick %d: %s", x.desc, atomic.LoadInt64(&rig.tick), why)
 			return false, x.stats
@@ -701,6 +794,19 @@ func c06RunScenario(m *vk.M, rig *c06Rig, idx int, sc c06Scenario) (ok bool, sta
 			}
 		}
 		now := atomic.LoadInt64(&rig.tick)
+		if skipped {
+			// the wheel finished this tick leaving due timers unexecuted: every retry that was
+			// due on it and did not run has been passed over
+			x.stats["ticks_with_unexecuted_due_timers"]++
+			for _, u := range x.units {
+				if u.active && !u.done && !u.closed && u.last+c06Delays[u.n+1] == now {
+					u.closed = true
+					x.violate("C06:retry:due-retry-not-run-in-shared-tick", "unit %s kind=%s keys=%v: background attempt #%d was due at tick %d (%d s after the failure at tick %d); the wheel completed that tick (run loop idle, no task goroutine left) having executed only part of the tasks due on it — this retry did not run",
+						u.plan.id, u.plan.kind, u.plan.keys, u.n+1, now, c06Delays[u.n+1], u.last)
+					return true, x.stats
+				}
+			}
+		}
 		settled := x.deadlines(now)
 		if x.bad {
 			return true, x.stats
@@ -819,6 +925,25 @@ func TestVerifC06RetrySystematic(t *testing.T) {
 			}
 		}
 	}
+	// two failed deletes pending at once whose key lists coincide (same key names on two redis
+	// servers) or merely look alike when joined with "," — each keeps its own retry schedule
+	for _, kind := range []string{"twonodes", "joined"} {
+		for j := 0; j <= 5; j++ {
+			idx++
+			if !m.Only(idx) {
+				continue
+			}
+			op := c06Op{Kind: kind, NKeys: 1 + j%2, FgFail: []bool{true, true}, FailFirst: []int{j, 5 - j}}
+			sc := c06Scenario{Name: fmt.Sprintf("%s/j=%d", kind, j), Ops: []c06Op{op}}
+			ok, stats := c06RunScenario(m, rig, idx, sc)
+			if !ok {
+				return
+			}
+			c06Finish(m, sc, stats, agg)
+			agg["colliding_key_list_scenarios"]++
+			m.Progress()
+		}
+	}
 	// the keys of the failed delete are not cached when the retry gets through (DEL removes 0 keys)
 	for _, kind := range []string{"node", "clustertype", "cluster"} {
 		for j := 0; j <= 5; j++ {
@@ -850,7 +975,7 @@ func TestVerifC06RetrySystematic(t *testing.T) {
 
 func c06RandomScenario(r interface{ Intn(int) int }, idx int) c06Scenario {
 	nops := 6 + r.Intn(14)
-	kinds := []string{"direct", "direct", "node", "clustertype", "cluster"}
+	kinds := []string{"direct", "direct", "node", "clustertype", "cluster", "twonodes", "joined"}
 	sc := c06Scenario{Name: fmt.Sprintf("random-%d", idx)}
 	sameTick := r.Intn(3) == 0 // pile attempts onto one tick (more than cleanWorkers at once)
 	for i := 0; i < nops; i++ {
@@ -875,6 +1000,9 @@ func c06RandomScenario(r interface{ Intn(int) int }, idx int) c06Scenario {
 		case "cluster":
 			op.NKeys = 3 + r.Intn(5)
 			groups = 3
+		case "twonodes", "joined":
+			op.NKeys = 1 + r.Intn(2)
+			groups = 2
 		}
 		failing := 0
 		for g := 0; g < groups; g++ {
